@@ -41,6 +41,10 @@ class ObjA(O.DBusObject):
     def dbus_Ping(self):
         return 'pong from ' + self.getObjectPath()
 
+    def __len__(self):
+        # an exported object may also be a container, and an empty one is falsy: the tree must not care
+        return 0
+
 
 class ObjAB(ObjA):
     dbusInterfaces = [IFACE_B]
@@ -49,6 +53,9 @@ class ObjAB(ObjA):
     def __init__(self, path):
         ObjA.__init__(self, path)
         self.count = 5
+
+    def __len__(self):
+        return 2
 
 
 def children_of(path, exported):
